@@ -283,7 +283,7 @@ Definition same_ucounts (cols : list str) (a b : list pair) : bool :=
 
 (* ---------- what the harness evaluates per case (names and scores arrive as indices into per-case tables).
    Result: (verdict of C06_check, its components when it rejects, list-level equality with the transcription,
-   per-batch agreement of the recorded selection with the stable-sort transcription (only when asked: the
+   multiset-level equality with the transcription, per-batch agreement of the recorded selection with the stable-sort transcription (only when asked: the
    imported sampler model is slow on long lists), sizes) ---------- *)
 Definition C06_eval (names : list str) (c : C06_case) (cands_ix : list (nat * nat))
            (rows_ix : list (list (nat * nat * nat))) (samp_ix : list (list (nat * nat)))
@@ -299,6 +299,10 @@ Definition C06_eval (names : list str) (c : C06_case) (cands_ix : list (nat * na
    else Some (cands_okb_fast (c_cols c) (c_heur c) (c_tro c) (c_label c) ocands, caps_ok,
               map (rows_okb_fast (c_cols c) (c_heur c) ocands cap') orows),
    pairs_eqb (C06_cands c) ocands,
+   (* same multiset of unordered pairs as the transcription (what C06_target_only_once / C06_pairwise_multiplicity
+      speak about); on a mismatch the transcription's list is returned as column positions *)
+   (let ms := same_ucounts (c_cols c) (C06_cands c) ocands in
+    (ms, if ms then [] else map (ixp (c_cols c)) (C06_cands c))),
    if with_sel then
      let osamp := map (map (fun ij : nat * nat => (nm (fst ij), nm (snd ij)))) samp_ix in
      map (fun ab => same_ucounts (c_cols c) (fst ab) (snd ab)) (combine (select_run [] (C06_cands c) cap' (c_batches c)) osamp)
